@@ -1,13 +1,18 @@
-(* Property C14 -- theorems only.  Each is closed by `exact <lemma>` and followed by Print Assumptions. *)
+(* Property C14 -- theorems only.  Each is closed by `exact <lemma>` and followed by Print Assumptions.
+   Models: PropagationModel.v (MemManagerStd / MemManagerProxy / stdish wrapper decisions + the std rule table),
+   Model.v (pointer-level ownership model: crew handle, MovedFrom state, manager carried by every block).
+   The extracted model is run against the real containers on every ./check (T-cor). *)
 From Coq Require Import ZArith List Bool.
-From C14 Require Import PropagationModel Model.
+From C14 Require Import PropagationModel Model Proofs.
 Import ListNotations.
 Local Open Scope Z_scope.
 
+(* ---- (1) propagation -------------------------------------------------------------------------------------------- *)
 (* For every stateful allocator type (all 8 POCCA/POCMA/POCS combinations, nothrow-move-assignable or not), every
-   wrapper operation and every pair of allocator identities (equal or unequal) for which the operation is defined by
-   the standard: the allocator the target ends up with, the allocator the source ends up with, and whether the
-   elements are transferred one by one, as decided by the stdish wrapper code, equal the std rule table. *)
+   wrapper operation (copy/move assignment, swap, X(X&&,a), X(const X&,a), X(X&&), X(const X&)) and every pair of
+   allocator identities (equal or unequal) for which the operation is defined by the standard: the allocator the target
+   ends up with, the allocator the source ends up with, and whether the elements are transferred one by one, as
+   decided by the stdish wrapper code, equal the std rule table. *)
 Theorem C14_propagation_table :
   forall tr op s t, is_empty tr = false -> std_defined tr op s t = true ->
     code_target_alloc tr op s t = std_target_alloc tr op s t /\
@@ -15,3 +20,238 @@ Theorem C14_propagation_table :
     code_elementwise tr op s t = std_elementwise tr op s t.
 Proof. exact propagation_table_stateful. Qed.
 Print Assumptions C14_propagation_table.
+
+(* empty allocator types (std::allocator): nothing is ever transferred element-wise and swap's assertion holds *)
+Theorem C14_propagation_table_empty_allocator :
+  forall tr op s t, is_empty tr = true ->
+    code_elementwise tr op s t = false /\ w_swap_assert_holds tr s t = true.
+Proof. exact propagation_table_empty. Qed.
+Print Assumptions C14_propagation_table_empty_allocator.
+
+(* MemManagerProxy::Assign over MemManagerStd<A>: whichever of the three pvAssign overloads (move / copy / swap) or
+   the destroy-and-reconstruct fallback is selected, the destination manager ends up with the source's identity
+   (this is what Array::Data::operator= and hence stdish::vector rely on). *)
+Theorem C14_manager_assign_takes_source :
+  forall tr src dst, is_empty tr = false -> snd (proxy_assign tr false src dst) = src.
+Proof. exact proxy_assign_dst. Qed.
+Print Assumptions C14_manager_assign_takes_source.
+
+(* stdish move assignment on two live wrappers (set/map/unordered_set/unordered_map/unordered_multimap), any traits,
+   any contents: it succeeds (every deallocation goes through the manager that allocated the block), the target has
+   exactly the source's former elements, the source is empty, the target's allocator is the one in the table; on the
+   steal path the target IS the former source object graph and the source is MovedFrom; on the element-wise path the
+   source keeps its own allocator; and no event outside {alloc, dealloc, move, destroy, multimap key copy} occurs. *)
+Theorem C14_stdish_move_assign :
+  forall wk tr dcr dbody ditems scr sbody sitems w,
+    cc_wf (Owned dcr dbody ditems) -> cc_wf (Owned scr sbody sitems) ->
+    exists d s' w', w_move_assign wk tr (Owned dcr dbody ditems) (Owned scr sbody sitems) w = Ok (d, s') w' /\
+      is_owned d /\ cc_wf d /\ cc_wf s' /\
+      items_of d = sitems /\ items_of s' = [] /\
+      (is_empty tr = false -> mgr_of d = Some (code_target_alloc tr OpMoveAssign (cmgr scr) (cmgr dcr))) /\
+      (code_elementwise tr OpMoveAssign (cmgr scr) (cmgr dcr) = false -> d = Owned scr sbody sitems /\ s' = MovedFrom) /\
+      (code_elementwise tr OpMoveAssign (cmgr scr) (cmgr dcr) = true -> mgr_of s' = Some (cmgr scr)) /\
+      (forall P, move_class P -> keycopy_ok wk P -> extends P w w').
+Proof. exact w_move_assign_spec. Qed.
+Print Assumptions C14_stdish_move_assign.
+
+(* X(X&&, alloc) / pvCreateMap / pvCreateSet / pvCreateMultiMap *)
+Theorem C14_stdish_move_construct_with_allocator :
+  forall wk tr scr sbody sitems al w,
+    cc_wf (Owned scr sbody sitems) ->
+    exists n s' w', w_create wk tr (Owned scr sbody sitems) al w = Ok (n, s') w' /\
+      is_owned n /\ cc_wf n /\ cc_wf s' /\ items_of n = sitems /\ items_of s' = [] /\
+      (w_steal tr (cmgr scr) al = true -> n = Owned scr sbody sitems /\ s' = MovedFrom /\ w' = w) /\
+      (w_steal tr (cmgr scr) al = false -> mgr_of n = Some al /\ mgr_of s' = Some (cmgr scr)) /\
+      (forall P, move_class P -> keycopy_ok wk P -> extends P w w').
+Proof. exact w_create_spec. Qed.
+Print Assumptions C14_stdish_move_construct_with_allocator.
+
+(* stdish copy assignment: target allocator per the table, equal contents, and every block of the new contents is
+   freshly allocated (id >= the world's counter before the call: shares nothing with any existing container). *)
+Theorem C14_stdish_copy_assign :
+  forall wk tr dcr dbody ditems scr sbody sitems w,
+    cc_wf (Owned dcr dbody ditems) -> cc_wf (Owned scr sbody sitems) ->
+    exists d w', w_copy_assign wk tr (Owned dcr dbody ditems) (Owned scr sbody sitems) w = Ok d w' /\
+      is_owned d /\ cc_wf d /\ items_of d = sitems /\
+      (is_empty tr = false -> mgr_of d = Some (code_target_alloc tr OpCopyAssign (cmgr scr) (cmgr dcr))) /\
+      Forall (fun b => next w <= fst b) (blocks_of d).
+Proof. exact w_copy_assign_spec. Qed.
+Print Assumptions C14_stdish_copy_assign.
+
+(* stdish::vector move assignment (Array::Data::operator= + MemManagerProxy::Assign + pvCreateArray) *)
+Theorem C14_vector_move_assign :
+  forall tr ic dst src w,
+    is_empty tr = false -> arr_wf dst -> arr_wf src ->
+    exists d s' w', v_move_assign tr ic dst src w = Ok (d, s') w' /\
+      amgr d = code_target_alloc tr OpMoveAssign (amgr src) (amgr dst) /\
+      aitems d = aitems src /\ aitems s' = [] /\ arr_wf d /\ arr_wf s' /\
+      (code_elementwise tr OpMoveAssign (amgr src) (amgr dst) = false -> ablock d = ablock src) /\
+      (forall P, move_class P -> extends P w w').
+Proof. exact v_move_assign_spec. Qed.
+Print Assumptions C14_vector_move_assign.
+
+(* ---- (2) the moved-from state -------------------------------------------------------------------------------------- *)
+(* native HashSet/HashMap, TreeSet/TreeMap (Clear as of fix a0dc6a6), HashMultiMap: in the MovedFrom state destroy,
+   Clear, Swap (either side), self move assignment and move assignment never touch the crew; copy assignment from a
+   live container yields a live, well-formed container with the source's contents and manager on which insertion
+   works again. *)
+Theorem C14_moved_from_ops_total_native :
+  forall k w,
+    cc_destroy k MovedFrom w = Ok tt w /\
+    cc_clear k MovedFrom w = Ok MovedFrom w /\
+    (forall c, cc_swap MovedFrom c = (c, MovedFrom) /\ cc_swap c MovedFrom = (MovedFrom, c)) /\
+    cc_self_move_assign k MovedFrom w = Ok MovedFrom w /\
+    (forall src, cc_move_assign k MovedFrom src w = Ok (src, MovedFrom) w) /\
+    (forall src, is_owned src -> cc_wf src ->
+       exists c' w', cc_copy_assign k MovedFrom src w = Ok c' w' /\ is_owned c' /\ cc_wf c' /\
+                     items_of c' = items_of src /\ mgr_of c' = mgr_of src /\
+                     forall multi v w2, exists c2 w3, cc_insert k multi c' v w2 = Ok c2 w3 /\ is_owned c2 /\ mgr_of c2 = mgr_of src).
+Proof. exact moved_from_ops_total_native. Qed.
+Print Assumptions C14_moved_from_ops_total_native.
+
+(* stdish wrappers, full strength, with the two KNOWN FINDINGS as explicit hypotheses:
+     not_D12 tr  :=  POCS = true                      (else swap's assertion evaluates get_allocator())
+     not_D13 tr  :=  (is_empty || POCMA) /\ (is_empty || POCCA)   (else operator= needs this->get_allocator()) *)
+Theorem C14_moved_from_ops_total_stdish :
+  forall wk tr w fcr fbody fitems,
+    cc_wf (Owned fcr fbody fitems) -> not_D12 tr -> not_D13 tr ->
+    let f := Owned fcr fbody fitems in
+    cc_destroy (nested wk) MovedFrom w = Ok tt w /\
+    cc_clear (nested wk) MovedFrom w = Ok MovedFrom w /\
+    w_swap tr MovedFrom f w = Ok (f, MovedFrom) w /\
+    w_swap tr f MovedFrom w = Ok (MovedFrom, f) w /\
+    w_swap tr MovedFrom MovedFrom w = Ok (MovedFrom, MovedFrom) w /\
+    w_move_assign wk tr MovedFrom f w = Ok (f, MovedFrom) w /\
+    (exists c' w', w_copy_assign wk tr MovedFrom f w = Ok c' w' /\ is_owned c' /\ cc_wf c' /\
+                   items_of c' = fitems /\ mgr_of c' = Some (cmgr fcr) /\
+                   forall multi v w2, exists c2 w3, cc_insert (nested wk) multi c' v w2 = Ok c2 w3 /\ is_owned c2).
+Proof. exact moved_from_ops_total_stdish. Qed.
+Print Assumptions C14_moved_from_ops_total_stdish.
+
+(* the excluded situations really fail in the model -- for EVERY allocator type outside the hypotheses *)
+Theorem C14_D12_refuted :
+  forall tr c w, pocs tr = false ->
+    w_swap tr MovedFrom c w = NullCrew /\ (is_owned c -> w_swap tr c MovedFrom w = NullCrew).
+Proof. exact D12_refuted. Qed.
+Print Assumptions C14_D12_refuted.
+
+Theorem C14_D13_refuted :
+  forall wk tr c w,
+    (w_propagate_move tr = false -> w_move_assign wk tr MovedFrom c w = NullCrew) /\
+    (w_propagate_copy tr = false -> w_copy_assign wk tr MovedFrom c w = NullCrew).
+Proof. exact D13_refuted. Qed.
+Print Assumptions C14_D13_refuted.
+
+(* vm_compute witnesses: std::allocator (POCS = false) for D12, kit::StdAlloc<.,false,false,false> for D13; and the
+   hypotheses of the full-strength theorem are satisfiable *)
+Theorem C14_D12_witness : w_swap (mkTraits false true false true true) MovedFrom some_set w0 = NullCrew.
+Proof. exact D12_witness_std_allocator. Qed.
+Print Assumptions C14_D12_witness.
+Theorem C14_D13_witness : w_move_assign WUMap (mkTraits false false false true false) MovedFrom some_set w0 = NullCrew.
+Proof. exact D13_witness_stateful_nonpropagating. Qed.
+Print Assumptions C14_D13_witness.
+Theorem C14_hypotheses_satisfiable :
+  not_D12 (mkTraits true true true true false) /\ not_D13 (mkTraits true true true true false) /\ cc_wf some_set.
+Proof. exact not_D12_D13_witness. Qed.
+Print Assumptions C14_hypotheses_satisfiable.
+
+(* ---- (3) moves --------------------------------------------------------------------------------------------------- *)
+(* native move construction / move assignment: the target is exactly the former source object graph, the source is
+   MovedFrom, nothing is copied and no element is even moved; the old target is released through its own manager. *)
+Theorem C14_move_leaves_source_empty_native :
+  (forall src, cc_move_ctor src = (src, MovedFrom)) /\
+  (forall k dst src w, cc_wf dst ->
+     exists w', cc_move_assign k dst src w = Ok (src, MovedFrom) w' /\ extends no_copy w w' /\
+                extends (fun e => negb (ev_move e)) w w').
+Proof. exact move_leaves_source_empty_native. Qed.
+Print Assumptions C14_move_leaves_source_empty_native.
+
+(* stdish move assignment never copy-constructs an element; only unordered_multimap may copy (const) keys *)
+Theorem C14_move_no_copy_stdish :
+  forall wk tr dcr dbody ditems scr sbody sitems w,
+    cc_wf (Owned dcr dbody ditems) -> cc_wf (Owned scr sbody sitems) ->
+    exists d s' w', w_move_assign wk tr (Owned dcr dbody ditems) (Owned scr sbody sitems) w = Ok (d, s') w' /\
+      extends no_elem_copy w w' /\ (wk <> WUMulti -> extends no_copy w w').
+Proof. exact move_no_copy_stdish. Qed.
+Print Assumptions C14_move_no_copy_stdish.
+
+(* the element-wise path moves the elements (at least one EMove when the source is not empty) *)
+Theorem C14_elementwise_moves :
+  forall k dcr scr sbody sitems w,
+    cc_wf (Owned dcr [] []) -> cc_wf (Owned scr sbody sitems) -> sitems <> [] ->
+    exists n s' w', cc_merge_from k (Owned dcr [] []) (Owned scr sbody sitems) w = Ok (n, s') w' /\
+      exists d, trace w' = d ++ trace w /\ existsb ev_move d = true.
+Proof. exact elementwise_moves. Qed.
+Print Assumptions C14_elementwise_moves.
+
+(* Array / ArrayIntCap / vector storage: move construction and move assignment transfer storage and manager, leave
+   the source empty without storage (immediately reusable), release the old storage through the OLD manager and
+   copy nothing (items in the internal buffer are relocated by moves). *)
+Theorem C14_array_move_assign :
+  forall assign dst src w,
+    assign_takes_source assign -> arr_wf dst -> arr_wf src ->
+    exists d s' w', arr_move_assign assign dst src w = Ok (d, s') w' /\
+      amgr d = amgr src /\ aitems d = aitems src /\ ablock d = ablock src /\ arr_wf d /\
+      aitems s' = [] /\ ablock s' = None /\ arr_wf s' /\
+      (forall P, move_class P -> extends P w w').
+Proof. exact arr_move_assign_spec. Qed.
+Print Assumptions C14_array_move_assign.
+
+Theorem C14_array_reusable_after_move :
+  forall ic a v w,
+    exists a' w', arr_insert ic a v w = (a', w') /\ aitems a' = aitems a ++ [v] /\ amgr a' = amgr a /\
+      extends (fun e => allocs_through (amgr a) e || ev_move e || negb (ev_copy e) && negb (ev_mem e)) w w'.
+Proof. exact arr_reusable. Qed.
+Print Assumptions C14_array_reusable_after_move.
+
+(* ---- (4) swap, self assignment ----------------------------------------------------------------------------------- *)
+Theorem C14_swap_exact_native : forall a b, cc_swap a b = (b, a).
+Proof. exact swap_exact_native. Qed.
+Print Assumptions C14_swap_exact_native.
+
+(* stdish swap of two live wrappers under the std precondition: exact exchange (contents, crews, allocators) and no
+   event whatsoever *)
+Theorem C14_swap_exact_stdish :
+  forall tr a b w x y,
+    mgr_of a = Some x -> mgr_of b = Some y -> w_swap_assert_holds tr x y = true ->
+    w_swap tr a b w = Ok (b, a) w.
+Proof. exact w_swap_exact. Qed.
+Print Assumptions C14_swap_exact_stdish.
+
+(* Array::Swap (three Data moves through MemManagerProxy::Assign): storage, contents and managers exchanged exactly,
+   nothing copied *)
+Theorem C14_swap_exact_array :
+  forall assign a b w,
+    assign_takes_source assign -> arr_wf a -> arr_wf b ->
+    exists a' b' w', arr_swap assign a b w = Ok (a', b') w' /\
+      amgr a' = amgr b /\ aitems a' = aitems b /\ ablock a' = ablock b /\
+      amgr b' = amgr a /\ aitems b' = aitems a /\ ablock b' = ablock a /\ arr_wf a' /\ arr_wf b' /\
+      (forall P, move_class P -> extends P w w').
+Proof. exact arr_swap_exact. Qed.
+Print Assumptions C14_swap_exact_array.
+
+(* x = std::move(x) (HashSet/TreeSet/HashMultiMap idiom X(std::move(x)).Swap(x)) is the identity in every state,
+   including MovedFrom, with no event *)
+Theorem C14_self_assign_identity : forall k c w, cc_self_move_assign k c w = Ok c w.
+Proof. exact self_move_assign_identity. Qed.
+Print Assumptions C14_self_assign_identity.
+
+(* ---- (5) copies --------------------------------------------------------------------------------------------------- *)
+(* X(const X&, MemManager): equal contents, the requested manager, and no block id is reachable from both; destroying
+   the copy deallocates none of the source's blocks. *)
+Theorem C14_copy_independent :
+  forall k cr body items m w,
+    below w (blocks_of (Owned cr body items)) ->
+    exists c' w', cc_copy_ctor_mm k (Owned cr body items) m w = Ok c' w' /\
+      items_of c' = items /\ mgr_of c' = Some m /\ is_owned c' /\ cc_wf c' /\
+      (forall b b0, In b (blocks_of c') -> In b0 (blocks_of (Owned cr body items)) -> fst b <> fst b0) /\
+      (forall w2, exists w3, cc_destroy k c' w2 = Ok tt w3 /\
+         exists d, trace w3 = d ++ trace w2 /\
+           forall mg id, In (EDealloc mg id) d -> ~ In id (map fst (blocks_of (Owned cr body items)))).
+Proof. exact copy_independent. Qed.
+Print Assumptions C14_copy_independent.
+
+(* non-vacuity of the manager check: a deallocation through another manager IS an error in the model *)
+Theorem C14_wrong_manager_detected : forall m m' id w, m <> m' -> dealloc m (id, m') w = WrongMgr.
+Proof. exact dealloc_wrong_manager. Qed.
+Print Assumptions C14_wrong_manager_detected.
